@@ -199,6 +199,112 @@ func errorCatalogue(dir string) []string {
 	return res
 }
 
+
+// ---- walking a case body together with the helpers it hands the cursor to ------------------------------------------
+//
+// The per-state facts (transitions, cursor calls, base copies) are read off the body of each `case` of BasicParser's
+// `switch state`. When a body (or a part of it) has been moved into a function of the package that is handed the cursor
+// (an argument rooted at `input`), the callee's body is visited at the position of the call, with the callee's parameter
+// names mapped back to the caller's argument names — so extracting a state into a method changes no fact.
+type inliner struct {
+	decls map[string]*ast.FuncDecl // by bare function / method name
+}
+
+func newInliner(p *pkgFiles) *inliner {
+	in := &inliner{decls: map[string]*ast.FuncDecl{}}
+	p.funcs(func(file string, fd *ast.FuncDecl) {
+		if _, dup := in.decls[fd.Name.Name]; dup {
+			in.decls[fd.Name.Name] = nil // ambiguous name: never inlined
+		} else {
+			in.decls[fd.Name.Name] = fd
+		}
+	})
+	return in
+}
+
+func renamedRoot(e ast.Expr, ren map[string]string) string {
+	r := rootIdent(e)
+	if v, ok := ren[r]; ok {
+		return v
+	}
+	return r
+}
+
+// exprStr with the root identifier renamed (a leading '*' or '&' is dropped: `*state = X` in a helper is `state = X`)
+func exprStrR(e ast.Expr, ren map[string]string) string {
+	for {
+		switch x := e.(type) {
+		case *ast.StarExpr:
+			e = x.X
+			continue
+		case *ast.ParenExpr:
+			e = x.X
+			continue
+		}
+		break
+	}
+	s := exprStr(e)
+	r := rootIdent(e)
+	if v, ok := ren[r]; ok && r != "" && strings.HasPrefix(s, r) {
+		s = v + s[len(r):]
+	}
+	return s
+}
+
+func (in *inliner) walk(n ast.Node, ren map[string]string, depth int, visit func(m ast.Node, ren map[string]string)) {
+	ast.Inspect(n, func(m ast.Node) bool {
+		if m == nil {
+			return true
+		}
+		visit(m, ren)
+		call, ok := m.(*ast.CallExpr)
+		if !ok || depth >= 3 {
+			return true
+		}
+		name := ""
+		switch f := call.Fun.(type) {
+		case *ast.SelectorExpr:
+			name = f.Sel.Name
+		case *ast.Ident:
+			name = f.Name
+		}
+		fd := in.decls[name]
+		if fd == nil || fd.Body == nil || name == "BasicParser" {
+			return true
+		}
+		handsCursor := false
+		for _, a := range call.Args {
+			if u, ok := a.(*ast.UnaryExpr); ok && u.Op == token.AND {
+				a = u.X
+			}
+			if id, ok := a.(*ast.Ident); ok && renamedRoot(id, ren) == "input" {
+				handsCursor = true
+			}
+		}
+		if !handsCursor {
+			return true
+		}
+		sub := map[string]string{}
+		i := 0
+		for _, fld := range fd.Type.Params.List {
+			for _, nm := range fld.Names {
+				if i < len(call.Args) {
+					a := call.Args[i]
+					if u, ok := a.(*ast.UnaryExpr); ok && u.Op == token.AND {
+						a = u.X
+					}
+					if id, ok := a.(*ast.Ident); ok {
+						sub[nm.Name] = renamedRoot(id, ren)
+					}
+				}
+				i++
+			}
+		}
+		in.walk(fd.Body, sub, depth+1, visit)
+		return true
+	})
+}
+
 // ---- state machine skeleton ------------------------------------------------------------------------------
 
 type caseFacts struct {
@@ -209,6 +315,7 @@ type caseFacts struct {
 
 func skeleton(p *pkgFiles) []caseFacts {
 	var res []caseFacts
+	inl := newInliner(p)
 	p.funcs(func(file string, fd *ast.FuncDecl) {
 		if fd.Name.Name != "BasicParser" {
 			return
@@ -228,23 +335,26 @@ func skeleton(p *pkgFiles) []caseFacts {
 					cf.labels = append(cf.labels, exprStr(l))
 				}
 				for _, b := range cc.Body {
-					ast.Inspect(b, func(m ast.Node) bool {
+					inl.walk(b, map[string]string{}, 0, func(m ast.Node, ren map[string]string) {
 						switch x := m.(type) {
 						case *ast.AssignStmt:
-							if len(x.Lhs) == 1 && exprStr(x.Lhs[0]) == "state" {
+							if len(x.Lhs) == 1 && exprStrR(x.Lhs[0], ren) == "state" {
 								cf.targets = append(cf.targets, exprStr(x.Rhs[0]))
 							}
 						case *ast.CallExpr:
-							s := exprStr(x.Fun)
-							if strings.HasPrefix(s, "input.") && (s == "input.rewindLast" || s == "input.reset" || s == "input.rewind" || s == "input.nextCodePoint") {
-								cf.cursor = append(cf.cursor, strings.TrimPrefix(s, "input."))
+							if sel, ok := x.Fun.(*ast.SelectorExpr); ok && renamedRoot(sel.X, ren) == "input" {
+								if _, direct := sel.X.(*ast.Ident); direct {
+									switch sel.Sel.Name {
+									case "rewindLast", "reset", "rewind", "nextCodePoint":
+										cf.cursor = append(cf.cursor, sel.Sel.Name)
+									}
+								}
 							}
 						case *ast.BranchStmt:
 							if x.Tok == token.FALLTHROUGH {
 								cf.targets = append(cf.targets, "FALLTHROUGH")
 							}
 						}
-						return true
 					})
 				}
 				res = append(res, cf)
@@ -258,6 +368,7 @@ func skeleton(p *pkgFiles) []caseFacts {
 // what each state of BasicParser copies from the base: (case label, "url.x = base.y") in source order
 func baseCopies(p *pkgFiles) []string {
 	var res []string
+	inl := newInliner(p)
 	p.funcs(func(file string, fd *ast.FuncDecl) {
 		if fd.Name.Name != "BasicParser" {
 			return
@@ -278,13 +389,14 @@ func baseCopies(p *pkgFiles) []string {
 				}
 				var copies []string
 				for _, b := range cc.Body {
-					ast.Inspect(b, func(m ast.Node) bool {
-						if as, ok := m.(*ast.AssignStmt); ok && len(as.Lhs) == 1 && len(as.Rhs) == 1 {
-							if rootIdent(as.Rhs[0]) == "base" && rootIdent(as.Lhs[0]) == "url" {
-								copies = append(copies, exprStr(as.Lhs[0])+" = "+exprStr(as.Rhs[0]))
+					inl.walk(b, map[string]string{}, 0, func(m ast.Node, ren map[string]string) {
+						if as, ok := m.(*ast.AssignStmt); ok && len(as.Lhs) == len(as.Rhs) {
+							for i := range as.Lhs { // also tuple assignments `url.a, url.b = base.a, base.b`
+								if renamedRoot(as.Rhs[i], ren) == "base" && renamedRoot(as.Lhs[i], ren) == "url" {
+									copies = append(copies, exprStrR(as.Lhs[i], ren)+" = "+exprStrR(as.Rhs[i], ren))
+								}
 							}
 						}
-						return true
 					})
 				}
 				if len(copies) > 0 {
